@@ -21,10 +21,16 @@ Second format (what the generators below emit; the old one is still read: corpus
   su: the storage side takes nothing while broker answers are turned into requests (every 1 s timeout send is lost)
   rp: the groups-reaper tick after the cycle finds a working ListConsumerGroups (storage answers FetchConsumers)
   rm: client.RefreshMetadata returns an error in this cycle
+  in kind sc2w the <sd> slot holds <mv>: the id (>= 2) of a broker that re-registers under a new address before the
+      cycle (0: none), and rp = 1 runs the real reapNonExistingGroups / ListConsumerGroups after the cycle
   kind suffix (routing inside the probe only): x = child process (may panic), s = unbuffered storage channel with a
       scripted reader, run in parallel (real time: stalls), w = real sarama client against sarama.MockBroker (wire).
   U / D = what the storage side RECEIVED.
 """
+
+# kafka-versions for which the wire scenarios run the groups reaper: Start() needs >= 0.11.0.0, and below 2.4.0 the
+# ListGroups exchange is in the non-flexible format that sarama's MockBroker is known to decode and encode
+REAPER_WIRE_VERSIONS = ("0.11.0.2", "1.0.0", "1.1.1", "2.0.0", "2.1.0")
 
 KAFKA_VERSIONS = ["", "0.8", "0.8.2", "0.8.2.2", "0.9", "0.9.0.1", "0.10", "0.10.0.1", "0.10.1", "0.10.1.0",
                   "0.10.2.1", "0.11.0.2", "1.0.0", "1.1.1", "2.0.0", "2.1.0", "2.4.0", "2.8.0", "3.6.0"]
@@ -61,20 +67,22 @@ def gen_scenario(rng, idx, force=None, bias=None, crash_p=0.01, mode=None, stall
     small = mode in ("stall", "wire")
     wire = mode == "wire"
     ntop = rng.randint(1, 2 if mode == "stall" else (3 if wire else 4))
-    nb = rng.randint(1, 3)
+    nb = rng.randint(2, 3) if (wire and rng.random() < 0.7) else rng.randint(1, 3)
     world = {}
     for t in range(1, ntop + 1):
         world[t] = _new_topic(rng, nb, rng.choice([1, 2, 2]) if small else None)
         if rng.random() < 0.15 and not (wire and t == 1):
             world[t]["present"] = False     # will (perhaps) appear later
-    ncyc = rng.randint(1, 3) if wire else (rng.randint(2, 5) if mode == "stall" else rng.randint(1, 6))
+    ncyc = rng.randint(1, 5) if wire else (rng.randint(2, 5) if mode == "stall" else rng.randint(1, 6))
     weird = rng.random() < 0.04 and not small
     crash_cycle = None
     if not small and (force == "crash" or (force is None and rng.random() < crash_p)):
         crash_cycle = rng.randrange(0, ncyc)
     kv = rng.randrange(0, len(KAFKA_VERSIONS))
+    if wire and rng.random() < 0.5:
+        kv = KAFKA_VERSIONS.index(rng.choice(REAPER_WIRE_VERSIONS))
     tags.add("kafka-version:" + (KAFKA_VERSIONS[kv] or "(default)"))
-    n_sd = n_su = 0
+    n_sd = n_su = n_mv = 0
     cycles = []
     for c in range(ncyc):
         # ---- topology changes since the last cycle
@@ -157,6 +165,16 @@ def gen_scenario(rng, idx, force=None, bias=None, crash_p=0.01, mode=None, stall
             if n_su < 2 and rng.random() < stall[1]:
                 su, n_su = 1, n_su + 1
                 tags.add("storage:no-reader-during-updates")
+        if wire:
+            # a broker (never the seed, id 1) that leads something now re-registers under a new address
+            movable = sorted({tw["leader"][p] for tw in world.values() if tw["present"] for p in tw["ids"]
+                              if tw["leader"][p] is not None and tw["leader"][p] >= 2})
+            if c > 0 and movable and n_mv < 2 and rng.random() < 0.4:
+                sd, n_mv = rng.choice(movable), n_mv + 1       # the <sd> slot is <mv> in this kind
+                tags.add("wire:broker-re-registers-under-new-address")
+            if c < ncyc - 1 and KAFKA_VERSIONS[kv] in REAPER_WIRE_VERSIONS and rng.random() < 0.4:
+                rp = 1
+                tags.add("wire:reaper-run-with-real-ListConsumerGroups")
         if not wire:
             if c > 0 and rng.random() < 0.08:
                 rp = 1
@@ -241,10 +259,14 @@ def parse(line):
     kv = int(nx()) if scripted else 0
     cycles = []
     for _ in range(int(nx())):
-        cyc = {"kv": kv, "sd": False, "su": False, "rp": False, "rm": False}
+        cyc = {"kv": kv, "sd": False, "su": False, "rp": False, "rm": False, "mv": 0}
         if scripted:
             for k in ("sd", "su", "rp", "rm"):
-                cyc[k] = nx() == "1"
+                cyc[k] = nx()
+            if f[0] == "sc2w":
+                cyc["mv"], cyc["sd"] = int(cyc["sd"]), "0"
+            for k in ("sd", "su", "rp", "rm"):
+                cyc[k] = cyc[k] == "1"
         cyc["tick"] = nx() == "1"
         cyc["topics_ok"] = nx() == "1"
         cyc["topics"] = [int(nx()) for _ in range(int(nx()))]
@@ -472,7 +494,7 @@ def run_check(chk, failed, which):
     bias = None if which == 11 else "topics"
     n = (5000 if which == 11 else 4000) if not chk.thorough else 150000
     n_stall = 96 if not chk.thorough else 1000
-    n_wire = (40 if which == 11 else 24) if not chk.thorough else 600
+    n_wire = (64 if which == 11 else 32) if not chk.thorough else 800
     stall_p = (0.25, 0.5) if which == 11 else (0.6, 0.15)     # (p of sd, p of su) per cycle
     cases, tags = [], []
     for ln in C.read_corpus(pid):
@@ -503,7 +525,9 @@ def run_check(chk, failed, which):
         + "; %d storage-stall scenarios (unbuffered storage channel, real time: the storage side takes nothing for 1.5 s at the "
           "start of a cycle with p=%.2f / takes nothing while broker answers arrive with p=%.2f; topic-set bias) and %d wire "
           "scenarios (real BurrowSaramaClient + sarama.Client against sarama.MockBroker: every answer goes through sarama's "
-          "encoder/decoder in the version of the request)" % (n_stall, stall_p[0], stall_p[1], n_wire)
+          "encoder/decoder in the version of the request; 1-5 cycles, a broker id re-registering under a new address between "
+          "cycles with p=0.4, the real groups reaper / ListConsumerGroups between cycles with p=0.4 for kafka-versions "
+          "0.11 .. 2.1)" % (n_stall, stall_p[0], stall_p[1], n_wire)
         + ". non-trivial = at least one fault, topology change or storage stall in the scenario; distinct by the case line")
     impl, model, mism = chk.differential("cluster", "cluster", "TestVerifProbeCluster", cases,
                                          name="scn%d" % which, project=project)
@@ -552,7 +576,9 @@ def run_check(chk, failed, which):
                 if cy["su"] and o["R"]:
                     chk.count("cycle:no-storage-reader-while-brokers-answer")
                 if cy["rp"]:
-                    chk.count("cycle:reaper-run")
+                    chk.count("cycle:reaper-run" + (" (wire: real ListConsumerGroups)" if c.startswith("sc2w") else ""))
+                if cy["mv"] and any(r[0] == cy["mv"] for r in o["R"]):
+                    chk.count("cycle:wire-broker-asked-at-its-new-address")
         nt, nb = kinds_of(cyc)
         chk.count("topics:%d" % nt)
         chk.count("brokers:%d" % nb)
